@@ -37,7 +37,9 @@ ToTOUGH2(mp) ==
                        [] p \in {22, 23, 24} -> 0
                        [] p \in {14, 17, 20} -> IF mp THEN 0 ELSE m.mop[p]
                        [] OTHER -> m.mop[p]],
-          !.condscaled = (m.mop[10] = 2) \/ (m.mop[23] \in {1} /\ m.oldsim),
+          (* the documented rescaling.  (convert_AUTOUGH2_parameters_to_TOUGH2 has a second one for MOP(23) = 1 with an
+             old simulator string, but convert_to_TOUGH2 clears the simulator string first: that branch is unreachable) *)
+          !.condscaled = (m.mop[10] = 2),
           !.gens = [i \in DOMAIN Kept(m.gens) |-> Conv(Kept(m.gens)[i])],
           !.lookup = LookupOf([i \in DOMAIN Kept(m.gens) |-> Conv(Kept(m.gens)[i])]),
           !.hist = [k \in {"b", "c", "g"} |-> IF m.short[k] > 0 THEN m.short[k] ELSE m.hist[k]],
